@@ -13,6 +13,7 @@ import itertools
 import json
 import sys
 import weakref
+import zlib
 
 import numpy as np
 
@@ -239,8 +240,12 @@ def check_c04_histories(tier, seed):
     steps = [("view", i, j) for i in range(5) for j in range(len(creators))] + [("mut", i, j) for i in range(5) for j in range(len(mutators))]
     base_vals = rng.uniform(-2, 2, size=(3, 4))
 
+    root_layout = {"v": "C"}
+
     def run_hist(hist, use_mg):
-        fam = [mg.tensor(base_vals.copy()) * 1.0 if use_mg else base_vals.copy()]
+        root = base_vals.copy() if root_layout["v"] == "C" else np.asfortranarray(base_vals)
+        # the owner is a non-leaf tensor produced by an op that keeps its operand's memory layout (K-order)
+        fam = [mg.tensor(root, copy=False) * 1.0 if use_mg else root * 1.0]
         cval = 1.5
         for (kind, i, j) in hist:
             if i >= len(fam):
@@ -260,62 +265,64 @@ def check_c04_histories(tier, seed):
         return fam
 
     count = 0
-    for L in range(1, depth + 1):
-        for hist in itertools.product(steps, repeat=L):
-            # canonical: indices refer to existing members only; at least one view and one mutation for L>=2
-            nviews = 0
-            ok = True
-            for (kind, i, j) in hist:
-                if i > nviews:
-                    ok = False
-                    break
-                if kind == "view":
-                    nviews += 1
-            if not ok:
-                continue
-            kinds = {k for k, _, _ in hist}
-            if L >= 2 and kinds != {"view", "mut"}:
-                continue
-            if tier == "quick" and L == depth and (hash(hist) % 7):
-                continue
-            try:
-                ref = run_hist(hist, False)
-            except Exception:
-                continue  # NumPy itself rejects the statement: not a history of the domain
-            if ref is None:
-                continue
-            desc = [f"{k}:{i}:{(creators if k=='view' else mutators)[j][0]}" for (k, i, j) in hist]
-            try:
-                got = run_hist(hist, True)
-            except Exception as e:
-                b.fail("C04.histories.raises", dict(history=desc), f"MyGrad raises {type(e).__name__}: {e} where NumPy accepts")
+    for layout in ("C", "F"):
+        root_layout["v"] = layout
+        for L in range(1, depth + 1):
+            for hist in itertools.product(steps, repeat=L):
+                # canonical: indices refer to existing members only; at least one view and one mutation for L>=2
+                nviews = 0
+                ok = True
+                for (kind, i, j) in hist:
+                    if i > nviews:
+                        ok = False
+                        break
+                    if kind == "view":
+                        nviews += 1
+                if not ok:
+                    continue
+                kinds = {k for k, _, _ in hist}
+                if L >= 2 and kinds != {"view", "mut"}:
+                    continue
+                if tier == "quick" and L == depth and (zlib.crc32(repr(hist).encode()) % 7):
+                    continue  # deterministic sample
+                try:
+                    ref = run_hist(hist, False)
+                except Exception:
+                    continue  # NumPy itself rejects the statement: not a history of the domain
+                if ref is None:
+                    continue
+                desc = [f"root:{layout}"] + [f"{k}:{i}:{(creators if k=='view' else mutators)[j][0]}" for (k, i, j) in hist]
+                try:
+                    got = run_hist(hist, True)
+                except Exception as e:
+                    b.fail("C04.histories.raises", dict(history=desc), f"MyGrad raises {type(e).__name__}: {e} where NumPy accepts")
+                    b.case(desc, nontrivial=kinds == {"view", "mut"})
+                    continue
+                count += 1
+                b.count("family mirror")
+                bad = None
+                for n_, (t, r) in enumerate(zip(got, ref)):
+                    if t.shape != r.shape or not np.array_equal(t.data, r):
+                        bad = f"member {n_} value {t.data.tolist()} != numpy {r.tolist()}"
+                        break
+                    if n_ > 0:
+                        shares = bool(r.size) and np.shares_memory(r, ref[0])
+                        if shares and t.base is not got[0]:
+                            bad = f"member {n_}.base is not the family owner"
+                            break
+                        if not shares and r.size and t.base is not None and not np.shares_memory(t.data, t.base.data):
+                            bad = f"member {n_} does not share memory with its .base"
+                            break
+                if bad is None and got[0].base is not None:
+                    bad = "owner has a base"
+                if bad is None:
+                    for p, q in itertools.combinations(range(len(got)), 2):
+                        if np.shares_memory(got[p].data, got[q].data) != np.shares_memory(ref[p], ref[q]):
+                            bad = f"shares_memory({p},{q}) differs from NumPy"
+                            break
+                if bad:
+                    b.fail("C04.histories.mirror", dict(history=desc), bad)
                 b.case(desc, nontrivial=kinds == {"view", "mut"})
-                continue
-            count += 1
-            b.count("family mirror")
-            bad = None
-            for n_, (t, r) in enumerate(zip(got, ref)):
-                if t.shape != r.shape or not np.array_equal(t.data, r):
-                    bad = f"member {n_} value {t.data.tolist()} != numpy {r.tolist()}"
-                    break
-                if n_ > 0:
-                    shares = bool(r.size) and np.shares_memory(r, ref[0])
-                    if shares and t.base is not got[0]:
-                        bad = f"member {n_}.base is not the family owner"
-                        break
-                    if not shares and r.size and t.base is not None and not np.shares_memory(t.data, t.base.data):
-                        bad = f"member {n_} does not share memory with its .base"
-                        break
-            if bad is None and got[0].base is not None:
-                bad = "owner has a base"
-            if bad is None:
-                for p, q in itertools.combinations(range(len(got)), 2):
-                    if np.shares_memory(got[p].data, got[q].data) != np.shares_memory(ref[p], ref[q]):
-                        bad = f"shares_memory({p},{q}) differs from NumPy"
-                        break
-            if bad:
-                b.fail("C04.histories.mirror", dict(history=desc), bad)
-            b.case(desc, nontrivial=kinds == {"view", "mut"})
     return b
 
 
@@ -395,6 +402,50 @@ def check_c06(tier, seed):
                             break
                     if bg.shape != base.shape or bg.dtype != base.dtype:
                         b.fail("C06.bounded.I1", desc, "base.grad shape/dtype")
+                    b.case(desc)
+    # views taken *after* backward (view ops do not null gradients): the base's gradient must already have the
+    # layout of the base's data, whatever layout its first contribution had
+    for order in ("C", "F"):
+        for contrib in ("same-layout", "other-layout", "transposed-operand"):
+            for L in range(1, maxlen + 1):
+                for chain in itertools.product(range(len(ops)), repeat=L):
+                    base_arr = np.asarray(rng.uniform(-1, 1, size=(3, 3)), order=order)
+                    base = mg.tensor(base_arr, copy=False)
+                    cvals = rng.uniform(1, 2, size=(3, 3))
+                    if contrib == "same-layout":
+                        Lt = (base * 2.0).sum()
+                    elif contrib == "other-layout":
+                        Lt = (base * np.asarray(cvals, order=("F" if order == "C" else "C"))).sum()
+                    else:
+                        Lt = (base.T * cvals).sum()
+                    Lt.backward()
+                    bg = base.grad
+                    desc = dict(chain=[ops[j][0] for j in chain], order=order, contribution=contrib, views="taken after backward")
+                    if bg is None:
+                        b.fail("C06.bounded.base_grad_missing", desc, "base.grad is None")
+                        continue
+                    v, ref, ok = base, bg, True
+                    for j in chain:
+                        try:
+                            v2 = ops[j][1](v)
+                        except Exception:
+                            ok = False
+                            break
+                        if v2 is None or not np.shares_memory(v2.data, base.data):
+                            ok = False
+                            break
+                        v = v2
+                        ref = ops[j][1](ref)
+                    if not ok:
+                        continue
+                    b.count("late view.grad is the view of base.grad")
+                    vg = v.grad
+                    if vg is None:
+                        b.fail("C06.bounded.view_grad_unavailable", desc, "view.grad is None although base.grad is available and the view belongs to the same epoch")
+                    elif vg.shape != ref.shape or not np.array_equal(vg, ref):
+                        b.fail("C06.bounded.view_grad_value", desc, "view.grad differs from the chain applied to base.grad")
+                    elif vg.size and not np.shares_memory(vg, base.grad):
+                        b.fail("C06.bounded.view_grad_not_shared", desc, "view.grad does not share memory with base.grad")
                     b.case(desc)
     # gradients of tensors that do not share memory never share memory
     for (name, tags, shapes, f) in select():
@@ -532,7 +583,7 @@ def check_c12(tier, seed):
         rule="case = (program, seed kind); non-trivial = at least two tensors hold gradients",
     )
     for (name, tags, shapes, f) in select():
-        for seedkind in ("none", "array", "tensor-grad"):
+        for seedkind in ("none", "array", "array-view", "tensor-grad"):
             vals = leaves(rng, shapes)
             desc = dict(program=name, seed=seedkind)
             arrs = [v.copy() for v in vals]
@@ -558,6 +609,11 @@ def check_c12(tier, seed):
                 g = rng.uniform(1, 2, size=L.shape)
                 gs = g.copy()
                 L.backward(g)
+            elif seedkind == "array-view":
+                gbuf = rng.uniform(1, 2, size=(L.size + 2,))
+                g = gbuf[1:-1].reshape(L.shape)  # a non-owning view of the caller's buffer
+                gs = g.copy()
+                L.backward(g)
             else:
                 other = mg.tensor(rng.uniform(1, 2, size=L.shape))
                 (other * 2.0).sum().backward()
@@ -578,6 +634,10 @@ def check_c12(tier, seed):
             if seedkind == "tensor-grad":
                 tens["seed-owner"] = other
             holders = [(k, t) for k, t in tens.items() if t.grad is not None and t.ndim]
+            for (p, tp) in holders:
+                b.count("stored gradient owns its memory")
+                if tp.grad.base is not None and p != "L" and tp.base is None:
+                    b.fail("C12.bounded.grad_not_owner", dict(desc, tensor=p), f"{p}.grad is a view of another array (it does not own its memory)")
             for (p, tp), (q, tq) in itertools.combinations(holders, 2):
                 if tp is tq:
                     continue
@@ -588,7 +648,7 @@ def check_c12(tier, seed):
                 for (q, tq) in tens.items():
                     if tq.ndim and np.shares_memory(tp.grad, tq.data):
                         b.fail("C12.bounded.grad_data_alias", dict(desc, pair=[p, q]), "a gradient array shares memory with a tensor's data")
-                if g is not None and seedkind == "array" and np.shares_memory(tp.grad, g):
+                if g is not None and seedkind in ("array", "array-view") and np.shares_memory(tp.grad, g):
                     b.fail("C12.bounded.grad_aliases_seed", dict(desc, tensor=p), f"{p}.grad shares memory with the array passed to backward(grad)")
             b.case(desc, nontrivial=len(holders) >= 2)
     return b
